@@ -74,7 +74,9 @@ pub fn draw_params<W: World>(w: &W, n: usize, rng: &mut Rng) -> RunParams {
     let max_proofs = p.range(batch as u64, 8) as usize;
     // whole and fractional seconds, sub-second, and one nanosecond off a whole second: a limit
     // handled in truncated units (seconds, milliseconds) behaves differently only on the latter
-    let window_ns = *p.pick(&[1 * S, 5 * S, 60 * S, 900 * MS, 3900 * MS, 250 * MS, S + 1, 2 * S - 1, 59_999 * MS + 999_999, 900 * MS + 500_000, MS + 1, 1_500 * MS + 1]);
+    let window_ns = *p.pick(&[1 * S, 5 * S, 60 * S, 900 * MS, 3900 * MS, 250 * MS, S + 1, 2 * S - 1, 59_999 * MS + 999_999, 900 * MS + 500_000, MS + 1, 1_500 * MS + 1, 7 * S + 300 * MS, u64::MAX]);
+    // u64::MAX stands for Duration::MAX (a window that never ends); scheduling uses a finite stand-in
+    let wsched = if window_ns == u64::MAX { 5 * S } else { window_ns };
     let pool = PoolParams {
         n,
         batch,
@@ -121,7 +123,7 @@ pub fn draw_params<W: World>(w: &W, n: usize, rng: &mut Rng) -> RunParams {
         }
     };
     // time scales are tied to the window so boundaries are crossed often
-    let send_gap_ns = *p.pick(&[window_ns / 20, window_ns / 5, window_ns / 2, window_ns * 2]).max(&MS);
+    let send_gap_ns = *p.pick(&[wsched / 20, wsched / 5, wsched / 2, wsched * 2]).max(&MS);
     RunParams {
         pool,
         clients: p.range(2, 6) as usize,
@@ -194,6 +196,8 @@ pub fn run<B: Backend, W: World>(be: &mut B, w: &W, params: RunParams, seed: u64
     let mut fr = root.fork("faults");
     let mut wl = root.fork("workload");
     let f = params.faults.clone();
+    // finite stand-in for a never-ending window in every scheduling computation
+    let wsched: u64 = if params.pool.window_ns == u64::MAX { 5 * S } else { params.pool.window_ns };
     let mut fired = Counters::default();
 
     let mut heap: BinaryHeap<Reverse<(u64, u64, usize)>> = BinaryHeap::new();
@@ -218,7 +222,7 @@ pub fn run<B: Backend, W: World>(be: &mut B, w: &W, params: RunParams, seed: u64
         t_send += wl.range(0, params.send_gap_ns);
         at!(t_send, Ev::ClientSend { client: i % params.clients, proof: *proof, attempt: 0 });
     }
-    let horizon = t_send + 4 * params.pool.window_ns + 60 * S;
+    let horizon = t_send + 4 * wsched + 60 * S;
     at!(params.block_interval_ns, Ev::BlockTick);
     at!(params.expiry_period_ns, Ev::ExpiryTick { max_age_ns: params.max_age_ns });
     at!(params.policy_period_ns, Ev::PolicyTick);
@@ -318,13 +322,13 @@ pub fn run<B: Backend, W: World>(be: &mut B, w: &W, params: RunParams, seed: u64
                     }
                     // at-least-once: retransmit when no ack arrives
                     if attempt < 3 {
-                        at!(now + 2 * S + f.jitter_ns * 2 + wl.range(0, params.pool.window_ns), Ev::Retry { client, proof, attempt: attempt + 1 });
+                        at!(now + 2 * S + f.jitter_ns * 2 + wl.range(0, wsched), Ev::Retry { client, proof, attempt: attempt + 1 });
                     }
                 }
                 Ev::Deliver { client, proof, mutation, .. } => {
                     let stall_ns = if f.verify_stall && fr.chance(1, 3) {
                         fired.inc("clock_advance_during_verify");
-                        *fr.pick(&[15 * MS, S, params.pool.window_ns, params.pool.window_ns + 1])
+                        *fr.pick(&[15 * MS, S, wsched, wsched + 1])
                     } else {
                         0
                     };
@@ -451,7 +455,7 @@ pub fn run<B: Backend, W: World>(be: &mut B, w: &W, params: RunParams, seed: u64
                     }
                 }
                 Ev::StallStart => {
-                    let d = *fr.pick(&[2 * S, params.pool.window_ns, 3 * params.pool.window_ns, params.max_age_ns + S]);
+                    let d = *fr.pick(&[2 * S, wsched, 3 * wsched, params.max_age_ns.min(3600 * S) + S]);
                     stalled_until = Some(now + d);
                     fired.inc("miner_stalled");
                     at!(now + d, Ev::StallEnd);
@@ -490,7 +494,7 @@ pub fn run<B: Backend, W: World>(be: &mut B, w: &W, params: RunParams, seed: u64
                     // aim pushes and expiries at exact boundaries of the pool's own window / a pooled proof's age
                     fired.inc("boundary_probe");
                     let ws = exec.model.window_start;
-                    let wn = params.pool.window_ns;
+                    let wn = wsched;
                     let pick = |r: &mut Rng| params.world_proofs[r.usize(params.world_proofs.len())];
                     for dt in [wn - 1, wn, wn + 1] {
                         if ws + dt > now {
@@ -526,6 +530,14 @@ pub fn run<B: Backend, W: World>(be: &mut B, w: &W, params: RunParams, seed: u64
                     // operator's own expiry policy, aimed: cut the deepest bucket just behind one of its
                     // older entries so that at least two newer ones survive (strict '>' keeps the pivot)
                     let pivot = exec.model.buckets.values().max_by_key(|b| b.entries.len()).filter(|b| b.entries.len() >= 3).map(|b| b.entries[1 + sched.usize(b.entries.len() - 2)].admitted);
+                    // boundary settings of the expiry call: "never expire" (Duration::MAX) must evict nothing,
+                    // a zero cutoff evicts exactly what is strictly older than now
+                    if sched.chance(1, 6) {
+                        let age = if sched.chance(2, 3) { u64::MAX } else { 0 };
+                        if let Outcome::Evicted(n) = step!(Step::EvictOlder { t: now, max_age_ns: age }) {
+                            state_changing |= n > 0;
+                        }
+                    }
                     if let Some(adm) = pivot {
                         if sched.chance(1, 2) && adm != u64::MAX && now > adm {
                             if let Outcome::Evicted(n) = step!(Step::EvictOlder { t: now, max_age_ns: now - adm }) {
